@@ -138,11 +138,12 @@ SxPrec(e) ==
     [] e[1] = "or" -> 1
     [] e[1] = "if" -> 0
 
-SxStyles == <<"min", "full", "red">>
-\* level demanded of an operand in a position whose grammatical level is n:
-\* min = the grammar's; full = every non-member operand is parenthesised;
-\* red = everything is parenthesised, literals and receivers included
-SxLvl(st, n) == CASE st = "min" -> n [] st = "full" -> (IF n < 7 THEN 7 ELSE n) [] st = "red" -> 9
+\* min = the grammar's precedence; full = every non-member operand is parenthesised; red = everything is
+\* parenthesised, literals and receivers included; redc = red, and every non-empty list ends with a comma
+SxStyles == <<"min", "full", "redc">>
+SxAllStyles == <<"min", "full", "red", "redc">>
+\* level demanded of an operand in a position whose grammatical level is n
+SxLvl(st, n) == CASE st = "min" -> n [] st = "full" -> (IF n < 7 THEN 7 ELSE n) [] st \in {"red", "redc"} -> 9
 
 SxBinSym(op) == CASE op = "eq" -> "==" [] op = "less" -> "<" [] op = "lessEq" -> "<=" [] op = "in" -> "in"
                   [] op = "add" -> "+" [] op = "sub" -> "-" [] op = "mul" -> "*"
@@ -156,8 +157,8 @@ SxLitToks(v) ==
     [] v[1] = "long" -> IF v[2][1] THEN <<"-", <<"num", v[2][2]>>>> ELSE << <<"num", v[2][2]>> >>
     [] v[1] = "str" -> << <<"str", v[2]>> >>
     [] v[1] = "ent" -> SxEntToks(v)
-\* a list may end with a comma; the redundant style writes it
-SxTrail(n, st) == IF st = "red" /\ n > 0 THEN <<",">> ELSE <<>>
+\* a non-empty list may end with a comma
+SxTrail(n, st) == IF st = "redc" /\ n > 0 THEN <<",">> ELSE <<>>
 
 RECURSIVE SxT(_, _), SxP(_, _, _), SxUn(_, _, _, _), SxList(_, _, _), SxRecList(_, _, _), SxChain(_, _)
 \* e in a position of grammatical level n
@@ -238,7 +239,6 @@ SxSetToks(ps, st) == SxSetToksFrom(ps, 1, st)
 
 \* sanity (binding M): parentheses / brackets balance and never close below zero.
 \* Only plain-string tokens are inspected (literal tokens are tuples).
-SxIsStr(t) == t \in {"(", ")", "[", "]", "{", "}"}
 RECURSIVE SxDepthOk(_, _, _)
 SxDepthOk(ts, i, d) ==
   IF i > Len(ts) THEN d = 0
